@@ -84,7 +84,7 @@ mutual
         else (ofPy func).bind fun m =>
           match m with
           | .member inst n => .ok (.methodCall inst n as)
-          | _ => .crash  -- `assert isinstance(member, tree.Member)`
+          | _ => .err  -- the callee is neither a name nor a member access (reported since the C01 repair)
     -- _ParseConstant
     | .constant (.bool b) => .ok (.const (.bool b))
     | .constant (.int i) => .ok (.const (.int i))
